@@ -5,7 +5,7 @@
 From Coq Require Import ZArith List Bool Arith.
 Import ListNotations.
 From OvldV Require Import Model.Order Model.Ty Model.Codec Model.Resolve Spec.Dispatch
-  Proofs.ResolveCands Proofs.ResolveStatic Proofs.ResolveTotal Gen.Leaf Proofs.LeafAgree.
+  Proofs.ResolveCands Proofs.ResolveStatic Proofs.ResolveTotal Proofs.ResolveChain Gen.Leaf Proofs.LeafAgree.
 
 Definition Refl (sub : nat -> nat -> bool) := forall c, sub c c = true.
 Definition Antisym (sub : nat -> nat -> bool) := forall c d, sub c d = true -> sub d c = true -> c = d.
@@ -84,8 +84,30 @@ Theorem C02_no_method_unconditional : forall sub hasm chk fresh, Refl sub -> Ant
 Proof. exact static_nomethod_iff. Qed.
 Print Assumptions C02_no_method_unconditional.
 
+(* EXACTNESS where the classes of the call fall under pairwise comparable registered types at every supplied
+   position (chain_applicable -- every call under single inheritance, C02_single_inheritance_exact): the
+   implementation's outcome IS the documented verdict -- the method the rule names, Ambiguous exactly when the rule
+   says Ambiguous, NoMethod exactly when nothing is applicable.  [ties_wf]: tiebreaks as registration leaves them
+   (C02_ties_registered); Ovld.unregister can leave others -- that is C05's subject (KF-05). *)
+Theorem C02_exact_on_chains : forall sub hasm chk fresh, Refl sub -> Antisym sub -> Trans sub -> forall ms k,
+  NoDup (map m_id ms) -> static_ms ms = true -> static_key k = true ->
+  chain_applicable sub ms k = true -> ties_wf ms = true ->
+  verdict_of (lookup sub hasm chk fresh ms k) = Some (spec_outcome sub ms k).
+Proof. exact chain_exact_unconditional. Qed.
+Print Assumptions C02_exact_on_chains.
+
+Theorem C02_single_inheritance_exact : forall sub hasm chk fresh, Refl sub -> Antisym sub -> Trans sub -> forall ms k,
+  Forest sub -> NoDup (map m_id ms) -> static_ms ms = true -> static_key k = true -> ties_wf ms = true ->
+  verdict_of (lookup sub hasm chk fresh ms k) = Some (spec_outcome sub ms k).
+Proof. exact single_inheritance_exact. Qed.
+Print Assumptions C02_single_inheritance_exact.
+
+Theorem C02_ties_registered : forall ds, ties_wf (fold_left defs_register ds []) = true.
+Proof. intros ds. now apply registered_ties_wf. Qed.
+Print Assumptions C02_ties_registered.
+
 (* FULL STATEMENT (false of the faithful model, C02_exact_refuted): lookup = spec_outcome for every class DAG.
-   The three theorems above leave exactly one way to differ: the rule says Ambiguous (no applicable method beats all
+   Outside chain_applicable the theorems above leave exactly one way to differ: the rule says Ambiguous (no applicable method beats all
    others) while the implementation returns an unbeaten method.  That happens when the layer-index "levels" order
    classes that are unrelated (KF-01); the harness classifies such calls with [chain_applicable]. *)
 Definition wh : hier :=   (* 0 object, 1 A, 2 B, 3 B2(B), 4 D(A, B2), 5 int *)
